@@ -855,6 +855,79 @@ def check_shipped(p, path, tmp, out):
 
 
 # ------------------------------------------------------------------ driver
+def by_name_layer(ctx, p, rng):
+    """the by-name save/load API with ONE name reused for a sequence of different configurations (the lookup helpers are pointed
+    at a scratch directory, nothing is written into the package): every load must return what was saved last"""
+    import panoptica.utils.config as C
+    saved = {n: getattr(C, n) for n in ("config_by_name", "config_dir_by_name") if hasattr(C, n)}
+    if len(saved) != 2:
+        ctx.disagree("by-name API", {"detail": "panoptica.utils.config no longer uses config_by_name / config_dir_by_name"})
+        return
+    with tempfile.TemporaryDirectory(prefix="c19n_") as tmp:
+        def dir_by_name(name):
+            return Path(tmp), name if name.endswith(".yaml") else name + ".yaml"
+
+        def by_name(name):
+            d, n = dir_by_name(name)
+            assert (d / n).exists(), f"no config {n}"
+            return d / n
+        C.config_dir_by_name, C.config_by_name = dir_by_name, by_name
+        try:
+            for seq in range(ctx.scale(6, 40)):
+                name = f"reused_{seq}"
+                specs = [random_spec(rng) for _ in range(3)]
+                hist = []
+                for spec in specs:
+                    try:
+                        with quiet():
+                            ev = build_evaluator(p, spec)
+                    except Exception:  # noqa
+                        continue
+                    try:
+                        with quiet():
+                            ev.save_to_config_by_name(name)
+                            back = p.Panoptica_Evaluator.load_from_config_name(name)
+                    except Exception as e:  # noqa
+                        ctx.violation(f"by-name save/load raised {type(e).__name__}: {str(e)[:160]}",
+                                      {"kind": "by-name", "specs": hist + [spec]})
+                        break
+                    hist.append(spec)
+                    ctx.count({"by_name": name, "n": len(hist), "spec": spec}, len(hist) >= 2)
+                    ctx.bump("by-name, name reused")
+                    d = first_diff(snap(ev), snap(back))
+                    if d:
+                        ctx.violation(f"load_from_config_name returned other settings than the configuration saved last under that name "
+                                      f"(after {len(hist)} saves): {d}", {"kind": "by-name", "specs": list(hist)})
+                        break
+        finally:
+            for n, f in saved.items():
+                setattr(C, n, f)
+
+
+def replay_by_name(d):
+    common.serial_pool()
+    p = P()
+    import panoptica.utils.config as C
+    saved = {n: getattr(C, n) for n in ("config_by_name", "config_dir_by_name")}
+    rc = 0
+    with tempfile.TemporaryDirectory(prefix="c19n_") as tmp:
+        C.config_dir_by_name = lambda name: (Path(tmp), name if name.endswith(".yaml") else name + ".yaml")
+        C.config_by_name = lambda name: Path(tmp) / (name if name.endswith(".yaml") else name + ".yaml")
+        try:
+            for i, spec in enumerate(d["specs"]):
+                with quiet():
+                    ev = build_evaluator(p, spec)
+                    ev.save_to_config_by_name("reused")
+                    back = p.Panoptica_Evaluator.load_from_config_name("reused")
+                diff = first_diff(snap(ev), snap(back))
+                print(f"save #{i + 1} under the same name, then load:", "identical settings" if not diff else "DIFFERS: " + str(diff))
+                rc |= bool(diff)
+        finally:
+            for n, f in saved.items():
+                setattr(C, n, f)
+    return rc
+
+
 def dead_attribute_check(ctx):
     """_default_result must stay unread outside __init__ (it is excluded from the attribute comparison)"""
     hits = []
@@ -944,6 +1017,8 @@ def run(ctx):
                 reqs.append((None, b))
                 owners.append((comp, {"shipped": path.name}, sxv, tree))
 
+    by_name_layer(ctx, p, rng)
+    ctx.layers.append({"layer": "by-name save/load, one name reused for three configurations", "exhaustive": False})
     # model: batch per op
     by_op = {}
     for i, (a, b) in enumerate(reqs):
@@ -983,6 +1058,8 @@ def replay(path):
     d = json.loads(open(path).read())
     rc = 0
     with tempfile.TemporaryDirectory(prefix="c19r_") as tmp:
+        if d.get("kind") == "by-name":
+            return replay_by_name(d)
         if d.get("kind") == "shipped":
             out = Outcome()
             f = common.REPO / "panoptica" / "configs" / d["file"]
